@@ -80,6 +80,17 @@ pub fn print_sql(replay: &str) {
             println!("{}", sql);
         }
     }
+    for (ti, spec) in w.h.tables.iter().enumerate() {
+        let rows = crate::hist::prefill_rows(spec);
+        if rows.is_empty() || ti >= model.tables.len() {
+            continue;
+        }
+        for chunk in rows.chunks(35) {
+            println!("INSERT INTO {} VALUES {}", spec.name, chunk.iter().map(|r| format!("({})", r.iter().map(|v| v.sql()).collect::<Vec<_>>().join(", "))).collect::<Vec<_>>().join(", "));
+        }
+        model.tables[ti].rows.extend(rows);
+        model.tables[ti].ever_had_rows = true;
+    }
     if w.ckpt_schema {
         println!(".reopen");
         for s in &w.setup {
@@ -130,13 +141,15 @@ pub fn child_main(args_path: &str) -> ! {
         let pts = if args.armed { turdb::verif::points_so_far() } else { 0 };
         let _ = writeln!(ack, "{} {} {} {}", idx, if ok { "ok" } else { "err" }, pts, kind);
         if let Some(f) = obsf.as_mut() {
-            let st = RefState { stmt: idx, kind: kind.to_string(), sql: sql.chars().take(300).collect(), ok, in_txn_after: model.in_txn(), long_sql: sql.len() > 1000, tables: model.tables.clone(), obs: obs(wdb, &model.tables, true) };
+            let st = RefState { stmt: idx, kind: kind.to_string(), sql: sql.chars().take(300).collect(), ok, in_txn_after: model.in_txn(), long_sql: sql.split('\'').any(|seg| seg.len() > 1000), tables: model.tables.clone(), obs: obs(wdb, &model.tables, true) };
             let _ = writeln!(f, "{}", serde_json::to_string(&st).unwrap());
         }
         // the statement boundary itself is a crash point: the process is killed while idle, right after
         // the acknowledgement (nothing of a later statement has run)
         if args.armed {
-            turdb::verif::point("ack");
+            // (after a COMMIT the point is a kind of its own, so the stratified choice of crash points always
+            // includes "committed, then killed before anything else happens")
+            turdb::verif::point(if kind == "COMMIT" && ok { "ack_commit" } else { "ack" });
         }
     };
     for t in model.tables.clone() {
@@ -148,6 +161,27 @@ pub fn child_main(args_path: &str) -> ! {
                 eprintln!("schema statement failed in child: {} -> {:?}", sql, wdb.exec(&sql));
                 unsafe { libc::_exit(3) }
             }
+        }
+    }
+    // pre-load (multi-page tables, UPDATE/DELETE that really touch rows): acknowledged INSERT statements like any other
+    for (ti, spec) in args.w.h.tables.iter().enumerate() {
+        let rows = crate::hist::prefill_rows(spec);
+        if rows.is_empty() || ti >= model.tables.len() {
+            continue;
+        }
+        for chunk in rows.chunks(35) {
+            let sql = format!(
+                "INSERT INTO {} VALUES {}",
+                spec.name,
+                chunk.iter().map(|r| format!("({})", r.iter().map(|v| v.sql()).collect::<Vec<_>>().join(", "))).collect::<Vec<_>>().join(", ")
+            );
+            let ok = matches!(wdb.exec(&sql), Exec::Ok { .. });
+            if ok {
+                model.tables[ti].rows.extend(chunk.iter().cloned());
+                model.tables[ti].ever_had_rows = true;
+            }
+            emit(&model, &wdb, "INSERT", &sql, ok, idx);
+            idx += 1;
         }
     }
     let mut wdb = wdb;
